@@ -250,7 +250,7 @@ NOT_COVERED = {
     'C09': ['which prefix find_common_prefix computes for "~" (any string satisfies the statement; bounded stand-in rewrite exercises it)', 'load_local_source_contents (filesystem; excluded by the property)', 'SourceMapHermes::rewrite function-map permutation (bounded stand-in only)'],
     'C05': ['dependencies (serde_json, url, bitvec, data-encoding, base64-simd, debugid)', 'sourceview.rs, js_identifiers.rs, detector.rs line scan, Display/Debug impls, ram_bundle.rs',
             'flatten (+ off_col / + off_line overflow, design-phase defect D6), rewrite, adjust_mappings, range bitfield writer (D4), decode_hermes', 'allocation in proportion to the input; wall-clock (only termination is proved)'],
-    'C08': ['the agreement theorems quantify over index maps whose sections are as the property describes them at every level of nesting (offsets strictly increasing, distinct generated positions inside a section, every moved token before the next offset); other index maps: bounded stand-ins index_flatten / index_nested', 'the hypotheses of the agreement lemma are the postconditions of executed functions; no concrete witness is constructed inside Verus (Vec values cannot be built in spec code), the stand-ins index_flatten / index_nested run the real functions on such inputs', 'flatten_and_rewrite (composition of two proved functions, not itself under contract)'],
+    'C08': ['the agreement theorems quantify over index maps whose sections are as the property describes them at every level of nesting (offsets strictly increasing, distinct generated positions inside a section, every moved token before the next offset); other index maps: bounded stand-ins index_flatten / index_nested', 'the hypotheses of the agreement lemma are the postconditions of executed functions; no concrete witness is constructed inside Verus (Vec values cannot be built in spec code), the stand-ins index_flatten / index_nested run the real functions on such inputs'],
     'C14': ['decode_hermes wrapper around the function-map decoder (destructuring of the first scope mapping, collect, decode_regular): bounded stand-in hermes_scope', 'DecodedMap::get_original_function_name dispatch (line != 0 => nothing for Hermes maps): bounded', 'stability under serialise/decode: the writer half is proved (SourceMapHermes::as_raw_sourcemap writes x_facebook_sources verbatim, u22); that decode_hermes keeps the raw metadata is bounded'],
     'C01': ['the serde_json layer (writer and reader of the JSON text, serde attributes): bounded stand-in roundtrip', 'the one closure of as_raw_sourcemap that collects the contents (captures a mutable local): behind an assumed contract', 'decode_hermes (wrapper)'],
     'C02': ['the six `let` lines of decode_regular that unpack the raw document (checked textually, not verified)', 'termination of the decode_index / decode_common recursion (bounded by serde_json)', 'decode_hermes'],
